@@ -313,6 +313,8 @@ class ConvexSpheropolygon(Shape2D):
         old_centroid = self._polygon.centroid
         data = self.to_json(["vertices", "radius", "area"])
         hoomd_dict = _map_dict_keys(data, key_mapping=_hoomd_dict_mapping)
+        # The stored arrays are moved back below: hand out copies of the centred shape.
+        hoomd_dict["vertices"] = self.vertices.copy()
         hoomd_dict["centroid"] = [0, 0, 0]
 
         self._polygon.centroid = old_centroid
